@@ -34,6 +34,35 @@ class Monitor:
         self._undo = []
 
     # ------------------------------------------------------------------ install / remove
+    @staticmethod
+    def pair_fit(res, fit, bio):
+        """which template atom each fit point stands for, and which real atom it was taken from, at the moment of
+        the fit. The neighbours across the peptide bond are taken from the ORDER of the residues in the chain (not
+        from the residue's peptide_n / peptide_c attributes). -> list of (template name, where, atom name)"""
+        ref = getattr(res, "reference", None)
+        if ref is None:
+            return None
+        prev_res = next_res = None
+        for ch in getattr(bio, "chains", []) or []:
+            rs = ch.residues
+            for i, r in enumerate(rs):
+                if r is res:
+                    prev_res = rs[i - 1] if i > 0 else None
+                    next_res = rs[i + 1] if i + 1 < len(rs) else None
+        out = []
+        for rp, dp in zip(fit["refs"], fit["defs"]):
+            t = next((n for n, a in ref.map.items() if tuple(map(float, a.coords)) == dp), None)
+            where, an = "other", None
+            for lab, r in (("own", res), ("next", next_res), ("prev", prev_res)):
+                if r is None:
+                    continue
+                hit = next((a.name for a in r.atoms if tuple(map(float, a.coords)) == rp), None)
+                if hit is not None:
+                    where, an = lab, hit
+                    break
+            out.append((t, where, an))
+        return out
+
     def __enter__(self):
         from pdb2pqr import aa, debump, na, quatfit, residue, structures
 
@@ -158,9 +187,13 @@ class Monitor:
                 original = self_.get_atom(atomname[:-4]) if atomname.endswith("FLIP") and self_.has_atom(atomname[:-4]) else None
                 out = orig(self_, atomname, newcoords, *a, **k)
                 new = [x for x in self_.atoms if id(x) not in before]
+                caller_frame = sys._getframe(1)
                 for x in new:
                     fit = mon.fits[-1] if mon.fits and tuple(map(float, newcoords)) == mon.fits[-1]["out"] and mon.fit_calls <= mon.max_f else None
-                    mon.created.append({"atom": x, "name": atomname, "residue": self_, "coords": tuple(map(float, newcoords)), "fit": fit, "caller": sys._getframe(1).f_code.co_name})
+                    pairing = None
+                    if fit is not None and caller_frame.f_code.co_name in ("repair_heavy", "add_hydrogens"):
+                        pairing = mon.pair_fit(self_, fit, caller_frame.f_locals.get("self"))
+                    mon.created.append({"atom": x, "name": atomname, "residue": self_, "coords": tuple(map(float, newcoords)), "fit": fit, "caller": caller_frame.f_code.co_name, "pairing": pairing})
                     if original is not None:
                         mon.flip_alias[id(x)] = original
                 return out
